@@ -145,7 +145,20 @@ class Mon:
                 if ch:
                     self.report('C05|failed-cond-notimpl-changed-state|%s' % cls, dict(d, changed=sorted(ch)), d)
             elif took_und or cls == 'NoneType':
-                self.bump('noop_skipped_undefined')
+                # IMPLEMENTATION DEFINED whether an UNDEFINED instruction that fails its condition traps - but only an
+                # instruction that IS undefined (in this state) may trap: the reference, with the condition forced to pass,
+                # says whether it is
+                from vf.ref import step as RS
+                try:
+                    v2, ref2, info2 = RS.step(pre, ctx.cfg, force_cond=True)
+                except Exception:
+                    v2, ref2 = 'error', None
+                if took_und and v2 == 'ok' and not ({'undef', 'hyptrap'} & set(ref2.events)):
+                    self.bump('noop_judged')
+                    self.report('C05|failed-cond-took-undefined|%s' % (info2.get('row') or '?'),
+                                dict(d, cond=cond, nzcv=nz, row=info2.get('row'), changed=sorted(ch)), dict(d, cond=cond, nzcv=nz))
+                else:
+                    self.bump('noop_skipped_undefined')
             elif kind != 'arm' and cls in NOT_IN_IT:
                 self.bump('noop_skipped_unpredictable_in_it_block')
             else:
